@@ -175,3 +175,13 @@ Example ex_remove_pad :
   exists img' u nx', remove_run fixed 255 true (guid_pred 3) ex_img 11 = Ok (img', u, nx') /\
     map fst u = [[2; 1; 0; 1; 0]; [1]]%nat /\ nx' = 13 /\ unwind img' u = ex_img.
 Proof. do 3 eexists. split; [vm_compute; reflexivity|]. repeat split; reflexivity. Qed.
+
+(* ---- format constants ----
+   The models take their format constants from Gen/Consts.v, which is regenerated from /repo's
+   source on every run; Spec/ConstPins.v (committed, written by bin/mkpins) pins every one of them
+   to the value the specifications give it.  A constant that drifts in the Go source breaks this
+   theorem instead of being silently followed by model and generator. *)
+From Fiano Require Spec.ConstPins.
+Theorem C11_format_constants_pinned : Spec.ConstPins.pinned_c11.
+Proof. exact Spec.ConstPins.pins_c11. Qed.
+Print Assumptions C11_format_constants_pinned.
